@@ -237,12 +237,20 @@ class Tracker:
                 closed_before = bool(getattr(cl, "closed_at", None) is not None and when > cl.closed_at)
                 r = "pending" if res is None else res[0]
                 late.append({"kind": kind, "res": r, "closedBefore": closed_before})
-            dvals = [ident("D", r) if isinstance(r, bytes) else "exc:" + type(r).__name__ for _, r in derived]
+            # compared per (purpose, length) - the two sides ask in different orders -, each request's results listed in call order
+            bykey = {}
+            for kind, r in derived:
+                bykey.setdefault(kind, []).append(ident("D", r) if isinstance(r, bytes) else "exc:" + type(r).__name__)
+            dvals = [[k] + v for k, v in sorted(bykey.items())]
             dd = True
             seen = {}
             for (kind, r) in derived:
                 if isinstance(r, bytes):
-                    purpose, n = kind.split(":")[1], kind.split(":")[2]
+                    purpose, n = kind.rsplit(":", 1)[0].split(":", 1)[1], kind.rsplit(":", 1)[1]
+                    if len(r) != int(n):
+                        dd = False          # not the length that was asked for
+                    if seen.get((purpose, n), r) != r:
+                        dd = False          # the same request answered differently
                     for (p2, n2), r2 in seen.items():
                         if n2 == n and p2 != purpose and r2 == r:
                             dd = False
